@@ -205,6 +205,15 @@ def order(ctx):
             ctx.ob(rid, not skip, f.loc(c["st"]), "activate() clears triggered only on the way to raising activated",
                    "" if not skip else "a path clears triggered and returns without activating (the 'already active' answer): "
                    "a trigger that already happened in the running cycle is wiped and its waiters block", fn=f.label, inst=f.qname)
+    # the three state-changing operations have their effect when they are called: none of them gives up on a busy mutex
+    for nm_ in ("activate", "trigger", "reset"):
+        for f in fb.functions(rec=CLS, name=nm_):
+            la_ = eng.locks(f)
+            soft = [ev for ev in la_.acquire_events if ev[3] in ("try", "timed") and ev[2].mutex in ("this.activeLock", "this.triggerLock")]
+            ctx.ob(rid, not soft, f.loc(soft[0][4]) if soft else f.where, "%s() waits for its mutex (it never skips its effect because the "
+                   "mutex is busy)" % nm_, "" if not soft else "%s takes %s with a try / timed acquisition: when another thread holds it "
+                   "for a moment the call returns without having done anything - waiters stay blocked, the variable stays active"
+                   % (nm_, soft[0][2].mutex[5:]), fn=f.label, inst=f.qname)
     for f in fb.functions(rec=CLS, name="reset"):
         la = eng.locks(f)
         calls = [st for st in f.stmts.values() if st["k"] == "CXXMemberCallExpr" and st["callee"]["name"] == "trigger"]
